@@ -330,7 +330,7 @@ Section Checkers.
               | Some h =>
                 let lti := wrap64 (51 + h_dsize h) in
                 negb ((lti <? blen file) && (h_ioff h =? 0)) &&
-                negb (h_doff h <? 51) && negb (h_ioff h <? lti)
+                negb (h_doff h <? 51) && negb (negb (h_ioff h =? 0) && (h_ioff h <? lti))
               | None => true
               end in
             if negb arith then Err EOther else
